@@ -211,6 +211,10 @@ Proof. exact PoolSrcProofs.source_nothing_handed_over_after_release. Qed.
 Theorem C19_shutdown_progress : forall s, treachable source_flags s -> t_closed s = true -> t_ap s <> ADone ->
   exists l s', l <> TShutdown /\ tstep source_flags s l = Some s'.
 Proof. exact PoolSrcProofs.source_shutdown_progress. Qed.
+(* refinement: the events (request read, handler start / end, Handle returned) of every execution pass the check [puse_ok] that the
+   harness applies to the recorded traces of the real TCP server scenarios *)
+Theorem C19_server_traces_accepted : forall ls s, trun source_flags tinit ls = Some s -> puse_ok (ptrace source_flags tinit ls) = true.
+Proof. exact PoolSrcProofs.source_server_traces_accepted. Qed.
 (* each of the three orders matters: reversed, some schedule releases the pool over a request that is still pending (it never runs) *)
 Theorem C19_add_inside_goroutine_refuted :
   exists s, trun (mkflags false true true) tinit witness_add_inside = Some s /\ lost_request s = true /\ t_ap s = ADone.
@@ -268,3 +272,4 @@ Print Assumptions C19_count_at_start_refuted.
 Print Assumptions C19_release_after_every_started_job_finished.
 Print Assumptions C19_worker_registration_never_blocks.
 Print Assumptions C19_listen_builds_the_pool_once.
+Print Assumptions C19_server_traces_accepted.
